@@ -53,6 +53,8 @@ type Exec struct {
 	iterIDs map[*ssa.Range]int
 	calleeTypes map[string]types.Type
 	chanKeys map[string]string
+	ghostLetNames map[string]bool
+	ghostLetTypes map[string]types.Type
 }
 
 type EntryInfo struct {
@@ -415,8 +417,9 @@ func (x *Exec) instr(st *State, fr *Frame, in ssa.Instruction) {
 		ks := leafSort(mt.Key())
 		h := st.heapGet(hk, ArrSort(SInt, ArrSort(ks, SBool)))
 		st.Heap[hk] = Store(h, r, ConstArr(ArrSort(ks, SBool), False))
-		lh := st.heapGet("M$len", ArrSort(SInt, SInt))
-		st.Heap["M$len"] = Store(lh, r, IntLit(0))
+		_, lk, _ := mapKeys(mt)
+		lh := st.heapGet(lk, ArrSort(SInt, SInt))
+		st.Heap[lk] = Store(lh, r, IntLit(0))
 		fr.Regs[i] = &Val{T: i.Type(), Term: r}
 	case *ssa.MakeChan:
 		r := st.newRef("chan")
@@ -480,6 +483,16 @@ func (x *Exec) instr(st *State, fr *Frame, in ssa.Instruction) {
 		}
 		r := st.newRef("closure")
 		st.Closures[r.Op] = clo
+		st.Assume(Eq(UF("closurefn", SInt, r), UF("fn$"+fn.String(), SInt)))
+		for bi, b := range clo.Bindings {
+			bv := b
+			if b.Cell != nil {
+				bv = st.Cells[b.Cell]
+			}
+			if bv != nil && bv.Term != nil && bv.Fields == nil && bv.Term.Sort == SInt {
+				st.Assume(Eq(UF(fmt.Sprintf("closurevar$%d", bi), SInt, r), bv.Term))
+			}
+		}
 		fr.Regs[i] = &Val{T: i.Type(), Clo: clo, Term: r}
 	case *ssa.Range:
 		x.rangeInit(st, fr, i)
@@ -1032,6 +1045,13 @@ func boxAxioms(ts []*Term) []*Term {
 func (x *Exec) makeInterface(st *State, v *Val, from types.Type, to types.Type) *Val {
 	if _, isIface := from.Underlying().(*types.Interface); isIface {
 		return &Val{T: to, Term: v.Term}
+	}
+	if v.Cell != nil {
+		// pointer to a local variable passed as an interface (e.g. json.Unmarshal(data, &local)): the
+		// pointer keeps its identity; only modelled library functions may receive it
+		b := boxTerm([]*Term{UF(fmt.Sprintf("celladdr$%d", v.Cell.ID), SInt)}, from)
+		st.Assume(Gt(b, IntLit(0)))
+		return &Val{T: to, Term: b, Cell: v.Cell}
 	}
 	var ts []*Term
 	fv := x.toHeapVal(st, v, from)
